@@ -100,11 +100,13 @@ def gen(tier, rng):
                         for costs in rng.sample(COSTS, 2 if tier != "thorough" else 4):
                             if coherent(costs):
                                 yield {"obj": osh, "sp": ssh, "leafmap": list(lm), "costs": costs}
-    for _ in range(25 if tier != "thorough" else 250):
-        on, sn = rng.choice([3, 4, 4]), rng.choice([3, 4])
+    for _ in range(900 if tier != "thorough" else 9000):
+        on, sn = rng.choice([3, 4, 4, 5]), rng.choice([2, 3, 4])
+        while (2 * sn - 1) ** (on - 1) > 2500:
+            sn -= 1
         osh, ssh = rng.choice(recon.binary_shapes(on)), rng.choice(recon.binary_shapes(sn))
         sleaves = [i for i, sh in enumerate(_nodes(ssh)) if not sh]
-        costs = [rng.randrange(0, 4), rng.randrange(0, 4), rng.choice([0, 1, 2, 3, "inf"]), rng.randrange(0, 4), 1]
+        costs = rng.choice(COSTS) if rng.random() < 0.4 else [rng.randrange(0, 4), rng.randrange(0, 4), rng.choice([0, 1, 2, 3, "inf"]), rng.randrange(0, 4), 1]
         if coherent(costs):
             yield {"obj": osh, "sp": ssh, "leafmap": [rng.choice(sleaves) for _ in range(on)], "costs": costs}
 
@@ -115,27 +117,40 @@ def _nodes(sh):
         yield from _nodes(c)
 
 
+def _work(args):
+    r, src_root = args
+    try:
+        return check(r, src_root)
+    except Exception:
+        import traceback
+
+        return "HARNESS-FAULT " + traceback.format_exc()
+
+
 def standin(name="reconciliation:thl-exh-vs-brute-force", only=None):
     def run(tier, rng, src_root):
-        evals = 0
-        seen = set()
-        viol = []
-        samples = []
-        for r in gen(tier, rng):
-            if only:
-                r = dict(r, only=only)
-            evals += 1
-            seen.add(repr(r))
-            if len(samples) < 3 and evals % 40 == 5:
-                samples.append(r)
-            w = check(r, src_root)
-            if w:
-                viol.append((w, r))
-                if len(viol) >= 2:
-                    break
-        return dict(evaluations=evals, distinct_nontrivial=len(seen), violations=viol, samples=samples,
-                    rule="binary object trees <= 3 (4) leaves x species trees <= 3 (4) leaves, sampled leaf assignments (species without objects included), cost vectors in the coherent region spe <= dup + 2*floss incl. zero and infinite transfer cost; thl and exhaustive, ALL and ANY, and generate_all compared with an independent enumeration + recount of all mappings")
+        import multiprocessing as mp
+        import os
 
-    sd = Standin(name, run, describe="bounded: <= 3/4 object leaves, <= 3/4 species leaves")
+        recipes = [dict(r, only=only) if only else r for r in gen(tier, rng)]
+        viol = []
+        evals = 0
+        with mp.get_context("fork").Pool(min(16, os.cpu_count() or 4)) as pool:
+            for r, w in zip(recipes, pool.imap(_work, [(r, src_root) for r in recipes], chunksize=8)):
+                evals += 1
+                if w:
+                    if w.startswith("HARNESS-FAULT"):
+                        raise RuntimeError(w)
+                    viol.append((w, r))
+                    if len(viol) >= 2:
+                        pool.terminate()
+                        break
+        seen = {repr(r) for r in recipes[:evals]}
+        return dict(evaluations=evals, distinct_nontrivial=len(seen), violations=viol, samples=recipes[5:200:80],
+                    rule="all binary object trees <= 3 (4) leaves x species trees <= 3 (4) leaves with sampled leaf assignments, plus 900 (9000) random inputs with 3-5 object leaves and 2-4 species leaves "
+                         "(species without objects included), cost vectors in the coherent region spe <= dup + 2*floss incl. zero and infinite transfer cost; thl and exhaustive, ALL and ANY, and generate_all "
+                         "compared with an independent enumeration + recount of all mappings; distinct = distinct recipes")
+
+    sd = Standin(name, run, describe="bounded: <= 5 object leaves, <= 4 species leaves")
     sd.replay = check
     return sd
